@@ -441,6 +441,10 @@ func c14Run(c *Ctx) {
 		}, nil)
 	}
 	Flags{}.Apply()
+	// a document that repeats the matching name: the literal is redacted at every occurrence
+	for _, fam := range c14Families {
+		duplicateKeyCheck(c, "selective", fam.match[0], []Flags{{Z: fam.re}, {Z: fam.re, N: true, B: true}}, func(can, line string) bool { return !strings.Contains(line, "other "+can) })
+	}
 	c14Ladders(c)
 	c14Churn(c)
 	// line locality in selective mode: the verdict for a line must not depend on the lines before it.  All
